@@ -92,16 +92,19 @@ def make_scenario(seed):
     workers = rng.choice([2, 2, 3, 4, 4, 8, 16])
     kn = {}
     swarm = rng.random()
+    sizes = [len(t["rows"]) for t in P.build_tables(dp)]  # exact row counts: boundary values must be exact
     for name in ("CONFIDENCE_CHUNK_SIZE", "CHUNK_SIZE_READ_ALL_DATA", "CHUNK_SIZE_ROWS_PREDICTION",
                  "CHUNK_SIZE_ROWS_FOR_DROP_COLUMNS", "MERGE_SORT_CHUNK_SIZE"):
         if rng.random() < (0.85 if swarm < 0.5 else 0.4):
-            kn[name] = datagen.knob_value(rng, per_file, extra=(max(1, per_file // folds - 1), per_file // folds + 1))
+            n_ = rng.choice(sizes)
+            kn[name] = datagen.knob_value(rng, n_, extra=(max(1, n_ // folds - 1), n_ // folds + 1, folds, 2 * folds))
     if rng.random() < 0.5:
         kn["CHUNK_SIZE_COLUMNS_FOR_DROP_COLUMNS"] = rng.randint(1, 25)
     fmt = rng.choice(["pin", "parquet"])
     pert = {
         "format": fmt,
-        "row_group": rng.choice([None, 1, 3, 16, 50, per_file - 1]) if fmt == "parquet" else None,
+        "row_group": rng.choice([None, 1, 3, 16, 50, sizes[0] - 1, sizes[0], max(1, kn.get("CONFIDENCE_CHUNK_SIZE", 7) - 1),
+                                 kn.get("CHUNK_SIZE_ROWS_PREDICTION", 9) + 1]) if fmt == "parquet" else None,
         "knobs": kn,
         "max_workers": workers,
         "sched": world.gen_sched(rng, workers, est_steps=6000),
